@@ -21,6 +21,7 @@ type c14Case struct {
 	Seed     uint64
 	Batches  []*model.Batch
 	Settings [][2]int // (SegmentKeysIndexMaxBytes, SegmentKeysIndexMinKeyBytes)
+	Merge    bool     `json:",omitempty"` // segments also hold unresolved Merge operands
 }
 
 func genKeySet(r *eng.Rng, n int) [][]byte {
@@ -69,6 +70,7 @@ func genKeySet(r *eng.Rng, n int) [][]byte {
 
 func genC14(r *eng.Rng, th bool) *c14Case {
 	c := &c14Case{Seed: r.S}
+	c.Merge = r.Chance(1, 3)
 	nseg := 1 + r.Intn(4)
 	for s := 0; s < nseg; s++ {
 		n := r.Pick(5, 7, 20, 60, 200, 700)
@@ -80,6 +82,9 @@ func genC14(r *eng.Rng, th bool) *c14Case {
 		for i, k := range keys {
 			if s > 0 && r.Chance(1, 10) {
 				b.Ops = append(b.Ops, model.Op{Kind: 'D', Key: k})
+			} else if c.Merge && r.Chance(1, 2) {
+				// without compaction the operand reaches the file unresolved
+				b.Ops = append(b.Ops, model.Op{Kind: 'M', Key: k, Val: []byte(fmt.Sprintf("m%d.%d", s, i))})
 			} else {
 				b.Ops = append(b.Ops, model.Op{Kind: 'S', Key: k, Val: []byte(fmt.Sprintf("v%d.%d", s, i))})
 			}
@@ -152,7 +157,7 @@ func runC14(cs *c14Case, scratch string, idx int, sr *run.ShardResult) (class, d
 	dir := filepath.Join(scratch, fmt.Sprintf("case%06d", idx))
 	os.MkdirAll(dir, 0o755)
 	defer os.RemoveAll(dir)
-	cfg := eng.Config{Backing: "store", Concern: 0, MaxPreMergerBatches: 10, IndexMaxBytes: -1}
+	cfg := eng.Config{Backing: "store", Concern: 0, MaxPreMergerBatches: 10, IndexMaxBytes: -1, MergeOp: cs.Merge}
 	e := eng.NewExec(cfg, dir, true)
 	defer e.D.Detach()
 	if err := e.Open(); err != nil {
@@ -220,8 +225,13 @@ func runC14(cs *c14Case, scratch string, idx int, sr *run.ShardResult) (class, d
 	rr := eng.NewRng(cs.Seed)
 	for _, st := range cs.Settings {
 		so := moss.StoreOptions{SegmentKeysIndexMaxBytes: st[0], SegmentKeysIndexMinKeyBytes: st[1]}
+		mtag := ""
+		if cs.Merge {
+			so.CollectionOptions.MergeOperator = eng.OrderedMerge{}
+			mtag = "|merge-operands"
+		}
 		for _, sk := range segKeys {
-			sr.Units[indexShape(sk, st[0], st[1])+fmt.Sprintf("|segs=%d", nseg)]++
+			sr.Units[indexShape(sk, st[0], st[1])+fmt.Sprintf("|segs=%d", nseg)+mtag]++
 		}
 		var class, detail string
 		err := eng.Safe(func() error {
@@ -301,7 +311,7 @@ func init() {
 	ck := &run.Check{
 		Prop:  "C14",
 		Level: "exploration",
-		Rule: "for each case a directory with 1-4 persisted segments (one per batch; 5-700 keys, thorough up to 3000; fixed width / variable length / long-then-short / short-then-long / shared-prefix key sets, later segments overwrite and delete) is written once, then opened with 15 index settings (disabled; SegmentKeysIndexMaxBytes in {5,9,17,64,1000,100000} x MinKeyBytes in {1, median, huge}); under every setting Get of every present key, key+\\x00, truncated key, last byte +-1, below-first and above-last probes, and 40 range scans with bounds from the same pool, must equal the reference map. distinct_nontrivial = distinct (index shape recomputed with the public formula: none / <2 keys / >=2 keys, hop>1, truncated | number of segments) pairs.",
+		Rule: "for each case a directory with 1-4 persisted segments (one per batch; 5-700 keys, thorough up to 3000; fixed width / variable length / long-then-short / short-then-long / shared-prefix key sets, later segments overwrite and delete; a third of the directories also hold unresolved Merge operands, read back under the order-sensitive operator) is written once, then opened with 15 index settings (disabled; SegmentKeysIndexMaxBytes in {5,9,17,64,1000,100000} x MinKeyBytes in {1, median, huge}); under every setting Get of every present key, key+\\x00, truncated key, last byte +-1, below-first and above-last probes, and 40 range scans with bounds from the same pool, must equal the reference map. distinct_nontrivial = distinct (index shape recomputed with the public formula: none / <2 keys / >=2 keys, hop>1, truncated | number of segments) pairs.",
 		MinUnits:    6,
 		Assumptions: []string{"the index shape reported as coverage is recomputed from the published formula, not read from moss internals"},
 	}
